@@ -878,9 +878,15 @@ type vLinIn struct {
 	Order int
 }
 type vLinOut struct {
-	OK    bool
-	Count int
+	OK     bool
+	Count  int
+	Detail string // status: the cpu amounts of the listed reservations, sorted
 }
+
+// order -> group template of the linearizability runs, and that group's total cpu
+// (single-entry groups with one replica each: g0, g2 and the packing group p700x1)
+var vLinGroup = map[int]int{1: 0, 2: 2, 3: vInvBaseGroups + 3}
+var vLinCPU = map[int]uint64{1: 1000, 2: 2500, 3: 700}
 
 func vInvLinearizability(res *vs.Result, runs int) {
 	model := porcupine.Model{
@@ -929,7 +935,16 @@ func vInvLinearizability(res *vs.Result, runs int) {
 				}
 				return !o.OK, st
 			case "status":
-				return o.Count == total, st
+				// one entry per outstanding reservation, each with its own amounts
+				// (the three orders reserve groups of different sizes)
+				var want []string
+				for k, n := range counts {
+					for j := 0; j < n; j++ {
+						want = append(want, fmt.Sprint(vLinCPU[k]))
+					}
+				}
+				sort.Strings(want)
+				return o.Count == total && o.Detail == strings.Join(want, ","), st
 			}
 			return false, st
 		},
@@ -975,7 +990,7 @@ func vInvLinearizability(res *vs.Result, runs int) {
 					var out vLinOut
 					switch in.Op {
 					case "reserve":
-						_, e := is.reserve(vInvOrder(in.Order), vInvGroup(0))
+						_, e := is.reserve(vInvOrder(in.Order), vInvGroup(vLinGroup[in.Order]))
 						out.OK = e == nil
 					case "unreserve":
 						out.OK = is.unreserve(vInvOrder(in.Order)) == nil
@@ -983,6 +998,14 @@ func vInvLinearizability(res *vs.Result, runs int) {
 						st, e := is.status(context.Background())
 						out.OK = e == nil
 						out.Count = len(st.Active) + len(st.Pending)
+						var got []string
+						for _, ru := range append(append([]atypes.ResourceUnits(nil), st.Active...), st.Pending...) {
+							if ru.CPU != nil {
+								got = append(got, fmt.Sprint(ru.CPU.Units.Value()))
+							}
+						}
+						sort.Strings(got)
+						out.Detail = strings.Join(got, ",")
 					}
 					ret := atomic.AddInt64(&clock, 1)
 					mu.Lock()
